@@ -143,7 +143,7 @@ def c10_decls(tier, seed=0):
     out = []
     k = [0]
 
-    def add(N, variants, exhaustive, note, reprs=None, storage_txt=None):
+    def add(N, variants, exhaustive, note, reprs=None, storage_txt=None, doc_first=False):
         k[0] += 1
         pid = f"e{k[0]:04d}"
         name = f"B{pid}"
@@ -155,6 +155,8 @@ def c10_decls(tier, seed=0):
             lines.append(f"#[repr({reprs})]")
         lines.append(f"pub enum {name} {{")
         for vn, txt, val, cfg in variants:
+            if doc_first and cfg:
+                lines.append("    /// documented variant (the cfg attribute is not the first attribute)")
             if cfg == "off":
                 lines.append('    #[cfg(feature = "test123")]')
             elif cfg == "on":
@@ -204,6 +206,7 @@ def c10_decls(tier, seed=0):
                     gated = [(f"V{i}", str(i), i, None) for i in range(count)]
                     gated[-1] = (gated[-1][0], gated[-1][1], gated[-1][2], "off")
                     add(N, gated, ex, f"u{N} {count} variants, last cfg-gated off, exhaustive={ex}")
+                    add(N, gated, ex, f"u{N} {count} variants, last cfg-gated off after a doc comment, exhaustive={ex}", doc_first=True)
                 pair = [(f"V{i}", str(i), i, None) for i in range(count - 1)]
                 pair += [("Von", str(count - 1), count - 1, "on"), ("Voff", str(count - 1), count - 1, "off")]
                 for ex in ("conditional", "false"):
